@@ -1,8 +1,10 @@
 ------------------------------ MODULE MC_Filters ------------------------------
 (***************************************************************************)
-(* All D x P x E x BF x construct configurations of Filters within the     *)
-(* bound (Deep = FALSE: quick, TRUE: thorough); every terminal state       *)
-(* prints the configuration and the expected application sequence.         *)
+(* All sessions of Filters within the bound (Deep = FALSE: quick, TRUE:    *)
+(* thorough): every D x P x E x BF x construct configuration with a single *)
+(* construct, and sequences of 2-3 constructs in one template, optionally   *)
+(* followed by a second template sharing D and BF.  Every terminal state   *)
+(* prints the session and the expected application sequence per construct. *)
 (***************************************************************************)
 EXTENDS Filters, Json
 CONSTANT Deep
@@ -17,17 +19,26 @@ EChoices == SeqsUpTo(ETokAll, 2) \cup {s \in SeqsUpTo(ETokSmall, IF Deep THEN 4 
             \cup (IF Deep THEN {s \in SeqsUpTo({"x", "u", "entity", "f2", "g(1)", "n"}, 3) : Len(s) = 3} ELSE {})
 BFChoices == {<<>>, <<"b1">>, <<"b1", "trim">>, <<"n", "b1">>}
 ESmall == SeqsUpTo({"h", "f1", "trim", "n"}, 2)
-Rec(c, d, p, e, b) == [c |-> c, D |-> d, P |-> p, E |-> e, BF |-> b]
-Configs ==
-  {Rec("expr", d, p, e, <<>>) : d \in DChoices, p \in PChoices, e \in EChoices}
-  \cup {Rec(c, d, p, e, b) : c \in {"def", "block", "text", "cacheddef"}, d \in {Absent, <<"d1">>}, p \in {Absent, <<"p1">>},
+It(c, e) == [c |-> c, E |-> e]
+One(c, d, p, e, b) == [D |-> d, P |-> p, BF |-> b, items |-> <<It(c, e)>>, items2 |-> <<>>]
+Single ==
+  {One("expr", d, p, e, <<>>) : d \in DChoices, p \in PChoices, e \in EChoices}
+  \cup {One(c, d, p, e, b) : c \in {"def", "block", "text", "cacheddef"}, d \in {Absent, <<"d1">>}, p \in {Absent, <<"p1">>},
                              e \in SeqsUpTo(ETokAll, 2), b \in {<<>>, <<"b1">>}}
-  \cup {Rec(c, d, p, e, b) : c \in {"bufdef", "cachedbufdef"}, d \in {Absent, <<>>, <<"str", "d1">>, <<"d1", "d2">>},
+  \cup {One(c, d, p, e, b) : c \in {"bufdef", "cachedbufdef"}, d \in {Absent, <<>>, <<"str", "d1">>, <<"d1", "d2">>},
                              p \in {Absent, <<"p1">>, <<"n", "p1">>}, e \in ESmall, b \in BFChoices}
+\* several constructs compiled one after the other against the same configuration objects
+ItemsA == {It("expr", <<>>), It("expr", <<"f1">>), It("expr", <<"n">>), It("def", <<"f2">>), It("bufdef", <<"f1">>), It("block", <<"h">>)}
+ItemsB == {It("expr", <<>>), It("expr", <<"f1">>), It("bufdef", <<>>), It("text", <<"trim">>)}
+ItemSeqs == {<<a, b>> : a \in ItemsA, b \in ItemsA}
+            \cup {<<a, b, c>> : a \in (IF Deep THEN ItemsA ELSE ItemsB), b \in (IF Deep THEN ItemsA ELSE ItemsB), c \in (IF Deep THEN ItemsA ELSE ItemsB)}
+Second == {<<>>, <<It("expr", <<>>)>>, <<It("expr", <<"f1">>), It("bufdef", <<>>)>>}
+Several ==
+  {[D |-> d, P |-> p, BF |-> b, items |-> s, items2 |-> t] :
+     d \in {Absent, <<>>, <<"d1">>, <<"str", "d1">>}, p \in {Absent, <<"p1">>, <<"p1", "p2">>, <<"n", "p1">>, <<"x">>},
+     b \in (IF Deep THEN {<<>>, <<"b1">>} ELSE {<<"b1">>}), s \in ItemSeqs, t \in Second}
+Configs == Single \cup Several
 MCInit == \E c \in Configs : FInit(c)
 MCSpec == MCInit /\ [][FNext]_fvars
 PrintTerminal == ~(phase = "done" /\ PrintT(ToJson([cfg |-> cfg, apps |-> apps])) /\ FALSE)
-\* witnesses against vacuity (each must be VIOLATED when checked as an invariant)
-Witness_LocalN == ~(phase = "done" /\ cfg.c = "expr" /\ Has(cfg.E, "n") /\ Len(apps) > 0)
-Witness_PageN == ~(phase = "done" /\ cfg.c = "expr" /\ Has(EffP(cfg), "n") /\ ~Has(cfg.E, "n") /\ Len(apps) > 1)
 =============================================================================
